@@ -2,15 +2,50 @@ import AnnVerif.Model.Block
 import AnnVerif.Lemmas.VoteCommit
 namespace AnnVerif.VoteSet
 
+/-- one step of the loop over a non-nil slot, when the loop goes on to report a tally -/
+theorem tallyCommit_step (slot : Bool) (sigok : Nat → Vote → Bool) (b : BlockID) (H R : Int)
+    (i : Nat) (val : Validator) (vt : List Validator) (p : Vote) (rest : List (Option Vote))
+    (acc t : Int)
+    (h : tallyCommit slot sigok b H R i (val :: vt) (some p :: rest) acc = .ok t) :
+    p.height = H ∧ p.round = R ∧ p.type = 2 ∧ sigok i p = true ∧
+    (slot = true → p.idx = (i : Int) ∧ p.addr = val.addr) ∧
+    tallyCommit slot sigok b H R (i + 1) vt rest (acc + if b = p.bid then val.power else 0) = .ok t := by
+  simp only [tallyCommit] at h
+  by_cases c1 : p.height ≠ H
+  · rw [if_pos c1] at h; cases h
+  · rw [if_neg c1] at h
+    by_cases c2 : p.round ≠ R
+    · rw [if_pos c2] at h; cases h
+    · rw [if_neg c2] at h
+      by_cases c3 : p.type ≠ 2
+      · rw [if_pos c3] at h; cases h
+      · rw [if_neg c3] at h
+        by_cases c4 : (!sigok i p) = true
+        · rw [if_pos c4] at h; cases h
+        · rw [if_neg c4] at h
+          by_cases c5 : slot = true ∧ (p.idx ≠ (i : Int) ∨ p.addr ≠ val.addr)
+          · rw [if_pos c5] at h; cases h
+          · rw [if_neg c5] at h
+            refine ⟨Classical.not_not.mp c1, Classical.not_not.mp c2, Classical.not_not.mp c3,
+              by simpa using c4, ?_, ?_⟩
+            · intro hs
+              constructor
+              · exact Classical.byContradiction fun hx => c5 ⟨hs, Or.inl hx⟩
+              · exact Classical.byContradiction fun hx => c5 ⟨hs, Or.inr hx⟩
+            · by_cases hb : b = p.bid
+              · rw [if_pos hb] at h ⊢; exact h
+              · rw [if_neg hb] at h ⊢; simpa using h
+
 /-- soundness of the `VerifyCommit` loop: when it reports a tally, every non-nil slot passed all
-    four per-precommit checks and the tally is exactly the power of the slots voting for `b` -/
-theorem tallyCommit_sound (sigok : Nat → Vote → Bool) (b : BlockID) (H R : Int) :
+    per-precommit checks and the tally is exactly the power of the slots voting for `b` -/
+theorem tallyCommit_sound (slot : Bool) (sigok : Nat → Vote → Bool) (b : BlockID) (H R : Int) :
     ∀ (slots : List (Option Vote)) (vals : List Validator) (i0 : Nat) (acc t : Int),
     vals.length = slots.length →
-    tallyCommit sigok b H R i0 vals slots acc = .ok t →
+    tallyCommit slot sigok b H R i0 vals slots acc = .ok t →
     t = acc + tallyB b (powers vals) slots ∧
     ∀ (j : Nat) (v : Vote), slots[j]? = some (some v) →
-      v.height = H ∧ v.round = R ∧ v.type = 2 ∧ sigok (i0 + j) v = true := by
+      v.height = H ∧ v.round = R ∧ v.type = 2 ∧ sigok (i0 + j) v = true ∧
+      (slot = true → SlotOk vals i0 j v) := by
   intro slots
   induction slots with
   | nil =>
@@ -26,58 +61,48 @@ theorem tallyCommit_sound (sigok : Nat → Vote → Bool) (b : BlockID) (H R : I
     | nil => simp at hl
     | cons val vt =>
       have hl' : vt.length = rest.length := by simpa using hl
+      have shift : ∀ (acc' : Int), tallyCommit slot sigok b H R (i0 + 1) vt rest acc' = .ok t →
+          ∀ (j : Nat) (v : Vote), rest[j]? = some (some v) →
+          v.height = H ∧ v.round = R ∧ v.type = 2 ∧ sigok (i0 + (j + 1)) v = true ∧
+          (slot = true → SlotOk (val :: vt) i0 (j + 1) v) := by
+        intro acc' h' j v hj
+        obtain ⟨a1, a2, a3, a4, a5⟩ := (ih vt (i0 + 1) acc' t hl' h').2 j v hj
+        have e : i0 + 1 + j = i0 + (j + 1) := by omega
+        rw [e] at a4
+        refine ⟨a1, a2, a3, a4, ?_⟩
+        intro hs
+        obtain ⟨b1, b2⟩ := a5 hs
+        exact ⟨by rw [b1, e], by simpa using b2⟩
       cases s with
       | none =>
         simp only [tallyCommit] at h
-        obtain ⟨h1, h2⟩ := ih vt (i0 + 1) acc t hl' h
+        obtain ⟨h1, _⟩ := ih vt (i0 + 1) acc t hl' h
         refine ⟨by simpa [tallyB, powers] using h1, ?_⟩
         intro j v hj
         cases j with
         | zero => simp at hj
-        | succ j =>
-          have := h2 j v (by simpa using hj)
-          have e : i0 + 1 + j = i0 + (j + 1) := by omega
-          rw [e] at this; exact this
+        | succ j => exact shift acc h j v (by simpa using hj)
       | some p =>
-        simp only [tallyCommit] at h
-        by_cases c1 : p.height ≠ H
-        · simp [c1] at h
-        · by_cases c2 : p.round ≠ R
-          · simp [c1, c2] at h
-          · by_cases c3 : p.type ≠ 2
-            · simp [c1, c2, c3] at h
-            · by_cases c4 : sigok i0 p = true
-              · simp only [c1, c2, c3, c4, if_false, Bool.not_true, Bool.false_eq_true] at h
-                have e1 : p.height = H := Classical.not_not.mp c1
-                have e2 : p.round = R := Classical.not_not.mp c2
-                have e3 : p.type = 2 := Classical.not_not.mp c3
-                by_cases hb : b = p.bid
-                · rw [if_pos hb] at h
-                  obtain ⟨h1, h2⟩ := ih vt (i0 + 1) _ t hl' h
-                  refine ⟨by simp [tallyB, powers, hb] at h1 ⊢; omega, ?_⟩
-                  intro j v hj
-                  cases j with
-                  | zero => simp at hj; subst hj; exact ⟨e1, e2, e3, by simpa using c4⟩
-                  | succ j =>
-                    have := h2 j v (by simpa using hj)
-                    have e : i0 + 1 + j = i0 + (j + 1) := by omega
-                    rw [e] at this; exact this
-                · rw [if_neg hb] at h
-                  obtain ⟨h1, h2⟩ := ih vt (i0 + 1) _ t hl' h
-                  refine ⟨by simp [tallyB, powers, hb] at h1 ⊢; omega, ?_⟩
-                  intro j v hj
-                  cases j with
-                  | zero => simp at hj; subst hj; exact ⟨e1, e2, e3, by simpa using c4⟩
-                  | succ j =>
-                    have := h2 j v (by simpa using hj)
-                    have e : i0 + 1 + j = i0 + (j + 1) := by omega
-                    rw [e] at this; exact this
-              · simp [c1, c2, c3, c4] at h
+        obtain ⟨e1, e2, e3, e4, e5, hrest⟩ := tallyCommit_step slot sigok b H R i0 val vt p rest acc t h
+        obtain ⟨h1, _⟩ := ih vt (i0 + 1) _ t hl' hrest
+        refine ⟨?_, ?_⟩
+        · by_cases hb : b = p.bid
+          · simp [tallyB, powers, hb] at h1 ⊢; omega
+          · simp [tallyB, powers, hb] at h1 ⊢; omega
+        · intro j v hj
+          cases j with
+          | zero =>
+            simp at hj; subst hj
+            refine ⟨e1, e2, e3, by simpa using e4, ?_⟩
+            intro hs
+            obtain ⟨b1, b2⟩ := e5 hs
+            exact ⟨by simpa using b1, val, by simp, b2.symm⟩
+          | succ j => exact shift _ hrest j v (by simpa using hj)
 
 /-- the loop never reports the non-error `ok` as an error -/
-theorem tallyCommit_ne_error_ok (sigok : Nat → Vote → Bool) (b : BlockID) (H R : Int) :
+theorem tallyCommit_ne_error_ok (slot : Bool) (sigok : Nat → Vote → Bool) (b : BlockID) (H R : Int) :
     ∀ (slots : List (Option Vote)) (vals : List Validator) (i0 : Nat) (acc : Int),
-    tallyCommit sigok b H R i0 vals slots acc ≠ .error .ok := by
+    tallyCommit slot sigok b H R i0 vals slots acc ≠ .error .ok := by
   intro slots
   induction slots with
   | nil => intro vals i0 acc; cases vals <;> simp [tallyCommit]
@@ -99,8 +124,10 @@ theorem tallyCommit_ne_error_ok (sigok : Nat → Vote → Bool) (b : BlockID) (H
             · split
               · simp
               · split
-                · exact ih vt _ _
-                · exact ih vt _ _
+                · simp
+                · split
+                  · exact ih vt _ _
+                  · exact ih vt _ _
 
 /-- what an accepted commit means: one round; every non-nil slot is a precommit of `height`
     and of that round whose signature verifies under the key at its POSITION; the slots voting for
@@ -161,22 +188,72 @@ theorem verifyCommit_sound (cfg : Cfg) (sigok : Nat → Vote → Bool) (vals : L
         · rename_i hh
           have hH : height = f.height := Classical.not_not.mp hh
           rw [← hvotes] at h
-          cases ht : tallyCommit sigok b height f.round 0 vals c.precommits 0 with
+          cases ht : tallyCommit cfg.slotCheck sigok b height f.round 0 vals c.precommits 0 with
           | error e =>
             rw [ht] at h; simp only at h
             subst h
-            exact absurd ht (tallyCommit_ne_error_ok sigok b height f.round c.precommits vals 0 0)
+            exact absurd ht (tallyCommit_ne_error_ok cfg.slotCheck sigok b height f.round c.precommits vals 0 0)
           | ok t =>
             rw [ht] at h
             simp only at h
             split at h
             · rename_i hgt
-              obtain ⟨h1, h2⟩ := tallyCommit_sound sigok b height f.round c.precommits vals 0 0 t hl' ht
+              obtain ⟨h1, h2⟩ := tallyCommit_sound cfg.slotCheck sigok b height f.round c.precommits vals 0 0 t hl' ht
               refine ⟨hl'.symm, f.round, ?_, ?_⟩
               · intro j v hj
-                have := h2 j v hj
-                simpa using this
+                obtain ⟨a1, a2, a3, a4, _⟩ := h2 j v hj
+                exact ⟨a1, a2, a3, by simpa using a4⟩
               · rw [h1] at hgt; simpa using hgt
             · cases h
+
+/-- with the slot check, an accepted commit holds in slot `j` only a precommit that names validator
+    `j` by index and by address -/
+theorem verifyCommit_slots (cfg : Cfg) (hs : cfg.slotCheck = true) (sigok : Nat → Vote → Bool)
+    (vals : List Validator) (b : BlockID) (height : Int) (c : Commit)
+    (h : verifyCommit cfg sigok vals b height c = .ok) :
+    ∀ (j : Nat) (v : Vote), c.precommits[j]? = some (some v) → SlotOk vals 0 j v := by
+  intro j v hj
+  unfold verifyCommit at h
+  by_cases hl : vals.length ≠ c.precommits.length
+  · simp [hl] at h
+  · have hl' : vals.length = c.precommits.length := Classical.not_not.mp hl
+    simp only [hl, if_false] at h
+    cases hvotes : c.precommits with
+    | nil => rw [hvotes] at hj; simp at hj
+    | cons x xs =>
+      rw [hvotes] at h
+      cases hfp : firstPrecommit (x :: xs) with
+      | none =>
+        -- no non-nil slot at all
+        exfalso
+        have : ∀ (l : List (Option Vote)), firstPrecommit l = none →
+            ∀ (j : Nat) (v : Vote), l[j]? ≠ some (some v) := by
+          intro l
+          induction l with
+          | nil => intro _ j v; simp
+          | cons s t ih =>
+            intro hn j v
+            cases s with
+            | some w => simp [firstPrecommit] at hn
+            | none =>
+              simp [firstPrecommit] at hn
+              cases j with
+              | zero => simp
+              | succ j => simpa using ih hn j v
+        exact this _ hfp j v (by rw [← hvotes]; exact hj)
+      | some f =>
+        rw [hfp] at h
+        simp only at h
+        split at h
+        · cases h
+        · rw [← hvotes] at h
+          cases ht : tallyCommit cfg.slotCheck sigok b height f.round 0 vals c.precommits 0 with
+          | error e =>
+            rw [ht] at h; simp only at h
+            subst h
+            exact absurd ht (tallyCommit_ne_error_ok cfg.slotCheck sigok b height f.round c.precommits vals 0 0)
+          | ok t =>
+            obtain ⟨_, h2⟩ := tallyCommit_sound cfg.slotCheck sigok b height f.round c.precommits vals 0 0 t hl' ht
+            exact (h2 j v hj).2.2.2.2 hs
 
 end AnnVerif.VoteSet
